@@ -90,6 +90,10 @@ func buildFlattenRuns(tier string, seed int64, scratch string, which string) ([]
 		if b.Feat.NAux == 0 && i%2 == 0 {
 			sets = append(sets, flattenOpts{KeepNames: true}, flattenOpts{Minimal: true, KeepNames: true, RemoveUnused: true})
 		}
+		if i%4 == 1 {
+			// Expand together with Minimal is still "Flatten with Expand" (C05)
+			sets = append(sets, flattenOpts{Expand: true, Minimal: true, RemoveUnused: i%8 == 1})
+		}
 		for j, o := range sets {
 			// phase snapshots (L1 contracts, L2 step conformance) are recorded for a rotating third of the runs in the quick tier
 			phases := (i+j+int(seed))%3 == 0
